@@ -341,6 +341,11 @@ def _reaper_side(fi):
 
 
 def run(ctx):
+    from .c01 import r01_16 as _r01_16
+    _r01_16(ctx)
+    # whether a worker has exited is decided by waitpid alone (borrowed from C19)
+    from .c19 import exit_decided_by_waitpid as _edw
+    _edw(ctx, 'R19.11')
     # the configured size is lowered once per worker that shrink() really retires (borrowed from C09): a refused shrink
     # that leaves the target too low is a lost worker that is never replaced
     from .c09 import r09_5 as _r09_5
